@@ -25,10 +25,13 @@ def run(ctx):
     rng = ctx.rng
     cmds = []
     cases = []
-    counts = (0, 1, 2, 5) if ctx.quick() else (0, 1, 2, 5, 17, 255)
+    counts = (0, 1, 2, 5, (0, 2), (2, 0), (1, 0, 3)) if ctx.quick() else (0, 1, 2, 5, 17, 255, (0, 2), (2, 0), (1, 0, 3), (3, 1, 0))
     fills = ("zero", "ones", "random", "edge")
     for mode, name, d, key in msggen.all_defs():
+        ngroups = len(msggen.Gen(rng, d, mode, name, key, 1, "zero").counts)
         for cnt in counts:
+            if isinstance(cnt, tuple) and ngroups < 2:
+                continue      # mixed counts only matter with two or more counted groups
             for fill in (fills if not ctx.quick() else (rng.choice(fills), "random")):
                 g = msggen.Gen(rng, d, mode, name, key, cnt, fill)
                 p = g.payload()
